@@ -11,7 +11,7 @@ CASE_TYPE = "C39_case"
 HARNESS = "c39"
 KNOWN = {1: "C39-int-from-hashed-type", 2: "C39-nested-types-unchecked",
          3: "C39-nested-appendable-dheader-ignored", 4: "C39-member-id-u16",
-         5: "C39-todo-type-identifier", 6: "C39-optional-mismatch", 7: "C39-typed-sample-none"}
+         6: "C39-optional-mismatch", 7: "C39-typed-sample-none"}   # 5 (todo!()) repaired in /repo: abb552f
 RULE = ("one `ev` case = a reader type T1 and a writer type T2 built at run time (DynamicTypeBuilderFactory), the "
         "real CompleteTypeObject::from + is_assignable_from_w_type_consistency decision for (T1 := T2) under a "
         "TypeConsistencyEnforcementQosPolicy, a value serialized by the real serializer with T2 and deserialized by the "
@@ -442,7 +442,7 @@ def ty_cases(r, n):
         k = i % 8
         ver = 2 if TY_PAIRS[k][0][0] == "M" or r.random() < 0.6 else 1
         out.append(("ty", k, ver, r.choice(["le", "be"]), 3 if r.random() < 0.7 else gen_tc(r),
-                    [rprim(r, "i32"), rprim(r, "i32")]))
+                    [rprim(r, "i32"), 0 if r.random() < 0.25 else rprim(r, "i32")]))
     return out
 
 
@@ -450,7 +450,7 @@ def corpus():
     P = lambda k: ("p", k)
     S = lambda ext, tn, ms: ("S", ext, tn, ms)
     out = nested_witnesses()
-    # 5: todo!() on hostile type identifiers
+    # former finding 5 (todo!() on hostile type identifiers, repaired by abb552f): regression cases, now `A 0`
     for t in ["none", "maps", "mapl", "scc", "dflt"]:
         out.append(("as", 3, (1, 1, [(0, 1, 0, (t,))]), (1, 2, [(0, 1, 0, ("i32",))])))
     out.append(("as", 3, (2, 1, [(0, 1, 0, ("seqs", 0, ("none",)))]), (2, 2, [(0, 1, 0, ("seqs", 0, ("i32",)))])))
@@ -475,11 +475,12 @@ def corpus():
     # compile-time (derive) types: the typed sample of an extended reader
     for k in range(8):
         out.append(("ty", k, 2, "le", 3, [5, 6]))
+    out.append(("ty", 7, 2, "le", 3, [5, 0]))      # the writer's optional member is absent
     return out
 
 
 def gen(r, tier):
-    n = {"quick": 2400, "search": 9000, "thorough": 40000}[tier]
+    n = {"quick": 2400, "search": 9000, "thorough": 18000}[tier]
     cases = []
     # systematic: the whole TypeIdentifier x TypeIdentifier table through a one-member FINAL structure
     reps = [(t,) for t in TID_SIMPLE] + [("s8s", 0), ("s8s", 5), ("s8l", 300), ("s8l", 2**32 - 1), ("s16s", 5),
@@ -887,7 +888,7 @@ MANIFEST = {
              "primitives and (w)strings, not optional, distinct ids; appendable evolution (members appended by the "
              "writer or by the reader) in XCDR1/XCDR2, both byte orders; mutable evolution (members added, removed, "
              "reordered) in XCDR2. Proved: every type object is assignable from itself (also by the rules without the "
-             "equality shortcut); the decision never panics on supported type identifiers; on the family the decision "
+             "equality shortcut); the decision never panics, for any two type objects; on the family the decision "
              "equals a declarative relation `evolves` (same names and types on corresponding members, a common member, "
              "one-sided members neither key nor must-understand and not reusing a reader name) or the type objects are "
              "equal; whenever the reader type is declared assignable from the writer type, every writer sample decodes "
@@ -901,8 +902,9 @@ MANIFEST = {
     "note": ("Trusted: Coq kernel + vm_compute; hand models AssignModel.v and XcdrModel.v (checked against the code on "
              "every run); harness and comparator. Known findings (each with a Coq witness and a patch proposal): "
              "integers assignable from any hashed type, hashed member types never compared, nested appendable DHEADER "
-             "ignored, member ids compared as u16, todo!() on TkNone/map/SCC/extended type identifiers, optional "
-             "mismatch accepted for FINAL/APPENDABLE. prevent_type_widening, force_type_validation and "
+             "ignored, member ids compared as u16, optional mismatch accepted for FINAL/APPENDABLE, typed sample None "
+             "for an extended reader type. The todo!() on TkNone/map/SCC/extended type identifiers is repaired "
+             "(abb552f): the decision is proved total. prevent_type_widening, force_type_validation and "
              "TypeConsistencyKind are never read by the code (modelled as such). The integer-widening candidate D35 of "
              "DESIGN.md is not present in this tree (proved: long := long long is rejected)."),
     "technique": "Coq proof (induction over member lists and over the XCDR2 parameter list; boolean characterisation "
